@@ -29,6 +29,9 @@ EXPLANATION = (
     " R06.7: abs(shape) - the 'transformed form' - is a copy that has been reified; the reify algebra of C02"
     ' therefore runs here as well. R06.2 is driven by per-radius zero facts: with both radii given, the cells'
     " 'rx is zero', 'ry is zero' and 'both' must each end with square corners."
+    ' The finding key of the direction clause of R06.5 carries the criterion the code uses (determinant / sign'
+    ' of a*d / other), so that the recorded known finding (sign of a*d) does not hide a different wrong'
+    ' criterion.'
 )
 TECHNIQUE = (
     "static analysis (no execution): segment-sequence extraction from segments() (value numbering, constant loops unrolled, index loops summarised by induction) compared with the SVG 2 chapter 10 equivalent paths; corner decision table by dispatch extraction; save/restore path check"
@@ -417,8 +420,34 @@ def direction_by_determinant(ctx):
     uses_det = "determinant" in {n.attr for n in ast.walk(t) if isinstance(n, ast.Attribute)} or \
         any(isinstance(b, ast.BinOp) and isinstance(b.op, ast.Sub) and isinstance(b.left, ast.BinOp) and isinstance(b.right, ast.BinOp) for b in ast.walk(t))
     diag_only = {"value_scale_x", "value_scale_y"} <= {n.attr for n in ast.walk(t) if isinstance(n, ast.Attribute)} and not uses_det
+    # which criterion is used (part of the finding key: the recorded finding is the product form only)
+    defs = {tg.id: v for tg, v, n_ in bindings(fn) if isinstance(tg, ast.Name)}
+
+    def res(e, depth=0):
+        return res(defs[e.id], depth + 1) if isinstance(e, ast.Name) and e.id in defs and depth < 3 else e
+
+    def diag(e):
+        e = res(e)
+        while isinstance(e, ast.Call) and isinstance(e.func, ast.Name) and e.func.id == "float" and e.args:
+            e = res(e.args[0])
+        if isinstance(e, ast.Call) and isinstance(e.func, ast.Attribute) and e.func.attr in ("value_scale_x", "value_scale_y"):
+            return e.func.attr
+        if isinstance(e, ast.Attribute) and e.attr in ("a", "d"):
+            return {"a": "value_scale_x", "d": "value_scale_y"}[e.attr]
+        return None
+
+    crit = "other"
+    if uses_det:
+        crit = "determinant"
+    else:
+        prods = [c for c in ast.walk(t) if isinstance(c, ast.Compare) and len(c.ops) == 1 and isinstance(c.ops[0], ast.Lt) and isinstance(c.comparators[0], ast.Constant) and c.comparators[0].value == 0
+                 and isinstance(res(c.left), ast.BinOp) and isinstance(res(c.left).op, ast.Mult) and {diag(res(c.left).left), diag(res(c.left).right)} == {"value_scale_x", "value_scale_y"}]
+        others = [c for c in ast.walk(t) if isinstance(c, ast.Compare) and c not in prods and any(diag(x) for x in [c.left] + c.comparators)]
+        if prods and not others:
+            crit = "sign of a*d"
     ctx.ob("R06.5", "_RoundShape.segments[direction reversed iff the determinant is negative]", uses_det and not diag_only, src[:100], flips[0].lineno,
-           "the sign of a*d is the sign of the determinant only without rotation/shear: under matrix(0 1 1 0 0 0) or scale(-1,1) rotate(90) the ellipse is traversed the wrong way round")
+           "the sign of a*d is the sign of the determinant only without rotation/shear: under matrix(0 1 1 0 0 0) or scale(-1,1) rotate(90) the ellipse is traversed the wrong way round"
+           " (criterion used: %s; `a < 0 or d < 0` is also true for a half turn, which preserves orientation)" % crit, detail="" if crit == "determinant" else crit)
 
 
 def clamp_after_render(ctx):
